@@ -18,11 +18,12 @@ type not in the whitelist below."""
 import ast, os
 
 SRC_REL = "src/koala/pointsets.py"
-ALLOWED_BUILTINS = {"range", "tuple", "len", "list", "int", "float", "min", "max", "abs", "sum", "zip",
+ALLOWED_BUILTINS = {"range", "tuple", "len", "list", "int", "float", "bool", "min", "max", "abs", "sum", "zip",
                     "enumerate", "print", "None", "True", "False"}
+EXCEPTION_NAMES = {"ValueError", "TypeError", "RuntimeError", "IndexError", "KeyError", "NotImplementedError", "Exception"}
 ALLOWED_NODES = (
     ast.Module, ast.FunctionDef, ast.arguments, ast.arg, ast.Import, ast.alias,
-    ast.Assign, ast.AugAssign, ast.Return, ast.If, ast.While, ast.For, ast.Break, ast.Continue, ast.Expr, ast.Pass,
+    ast.Assign, ast.AugAssign, ast.Return, ast.If, ast.While, ast.For, ast.Break, ast.Continue, ast.Expr, ast.Pass, ast.Raise,
     ast.Call, ast.keyword, ast.Attribute, ast.Name, ast.Constant, ast.BinOp, ast.UnaryOp, ast.BoolOp, ast.Compare,
     ast.Subscript, ast.Slice, ast.Tuple, ast.List, ast.Dict, ast.ListComp, ast.DictComp, ast.comprehension,
     ast.Load, ast.Store,
@@ -127,9 +128,30 @@ class FnAnalysis:
             if st.value is not None:
                 self.visit_expr(st.value, guarded)
         elif isinstance(st, ast.Expr):
+            if isinstance(st.value, ast.Constant) and isinstance(st.value.value, str):
+                return  # a docstring / bare string statement: no effect, draws nothing
             self.visit_expr(st.value, guarded)
         elif isinstance(st, (ast.Break, ast.Continue, ast.Pass)):
             pass
+        elif isinstance(st, ast.Raise):
+            # `raise SomeError("message" / f"... {expr} ...")`: ends the call; the message may be a string, the values
+            # formatted into it are ordinary expressions (so `rng` / np.random cannot be smuggled through it)
+            ex = st.exc
+            if st.cause is not None or not (isinstance(ex, ast.Call) and isinstance(ex.func, ast.Name) and ex.func.id in EXCEPTION_NAMES and not ex.keywords):
+                fail(st, "raise of anything but a plain built-in exception constructed in place")
+            for a in ex.args:
+                if isinstance(a, ast.Constant) and isinstance(a.value, str):
+                    continue
+                if isinstance(a, ast.JoinedStr):
+                    for v in a.values:
+                        if isinstance(v, ast.FormattedValue):
+                            if v.format_spec is not None and not all(isinstance(x, ast.Constant) for x in v.format_spec.values):
+                                fail(st, "nested format specification")
+                            self.visit_expr(v.value, guarded)
+                        elif not (isinstance(v, ast.Constant) and isinstance(v.value, str)):
+                            fail(st, "unexpected f-string part")
+                    continue
+                self.visit_expr(a, guarded)
         else:
             fail(st, f"unsupported statement {type(st).__name__}")
 
